@@ -32,9 +32,9 @@ META = {
     "level_note": "Trusts numpy and the transcription of the documented Kraus formulas in pv/ref/c28_dm.py; channels are compared through their Choi "
                   "matrices (tolerance 2e-6 on channel action absorbs the implementation's 1e-14 square-root stabiliser = 1e-7 in an amplitude at the end points; completeness and physicality use 1e-10). Channels with broadcast parameters are "
                   "not generated (no channel documents broadcasting). Unitary gate matrices come from R-GATES (independent fraction reported).",
-    "shards": {"quick": 3, "thorough": 12},
-    "budget_s": {"quick": 110, "thorough": 240},
-    "min_evals": {"quick": 1500, "thorough": 30000},
+    "shards": {"quick": 3, "thorough": 9},
+    "budget_s": {"quick": 110, "thorough": 180},
+    "min_evals": {"quick": 1200, "thorough": 8000},
     "deciding": ["kraus.complete", "kraus.formula", "dm.kernel", "dm.result", "dm.physical"],
     "rule": "case = (channel class, parameter point) or (noisy circuit spec, device wires, interface); distinct = content fingerprint; non-trivial = "
             "channel parameter strictly inside the domain or on a boundary other than the identity channel / circuit whose reference state is mixed (purity < 1 - 1e-6) or entangled",
